@@ -244,6 +244,14 @@ def run(pid, tier="quick", seed=0, nproc=None, cap_s=None, confirm=True):
         a1 = pool.apply(_work, (first,))
         if (a0["outcomes"] != a1["outcomes"] or a0["nviol"] != a1["nviol"]
                 or a0["states"] != a1["states"]):
+            if getattr(chk, "NONDETERMINISM_IS_VIOLATION", False):
+                # reproducibility is part of this property: two executions of the same cases disagree
+                v = {"sig": "%s:nondeterministic-between-executions" % pid, "case": first[0][1], "idx": 0,
+                     "msg": "the same cases executed twice (two worker processes, same seeds) gave different observations"}
+                path = write_replay(pid, v)
+                print("  sig=%s :: %s" % (v["sig"], v["msg"]))
+                print("VIOLATION property=%s replay=%s" % (pid, path))
+                return 1
             print("HARNESS-ERROR: nondeterministic observations on the first chunk")
             return 2
         merge(a0)
